@@ -218,9 +218,6 @@ def check(rep):
                  args=(1, 1, False), steps=40),
             dict(name="threads: emitter0 x1 | dispatcher | application adds and removes a handler", module=mod,
                  harness="h_threads", args=(1, 0, True), steps=36)]
-    if not quick:
-        conc.append(dict(name="threads: emitter0 x2 | dispatcher | application adds and removes a handler", module=mod,
-                         harness="h_threads", args=(2, 0, True), steps=50))
     for sp in conc:
         sp.update(setup="setup", encode=("watchdog", "queue", "vf.props.c05"), racy=racy, jobs=4, query_timeout_s=900 if quick else 3000,
                   loop_bound=400)
